@@ -15,6 +15,8 @@ class InterpBuiltins:
         if name.startswith('m:'):
             return self.call_builtin_method(f.selfv, name[2:], args, kwargs, line)
         if name.startswith('ext:'):
+            if f.selfv is not None:     # method of an external class: the receiver is the first argument
+                args = [f.selfv] + list(args)
             return self.reg.call_external(self, name[4:], args, kwargs, line)
         m = getattr(self, 'bi_' + name, None)
         if m is None:
@@ -889,3 +891,47 @@ class InterpBuiltins:
 
     def bi_ghost_int(self, args, kw, line):
         return self._ghost(args, I, INT)
+    def type_designator(self, d):
+        """str / int / bool / float, an enum or repo class, or an annotation string -> type"""
+        if isinstance(d, Builtin) and d.name in ('str', 'int', 'float', 'bool'):
+            return {'str': STR, 'int': INT, 'float': REAL, 'bool': BOOL}[d.name]
+        if isinstance(d, ClassV):
+            return TEnum(d.name) if self.ts.is_enum_class(d.name) else TObj(d.name)
+        if isinstance(d, str):
+            return self.ts.ann_to_type(ast.parse(d, mode='eval').body, 'ttypes')
+        raise Unsupported(f'type designator {d!r:.40}')
+
+    def bi_uf(self, args, kw, line):
+        """uf('name', type, *args): application of an uninterpreted function symbol; used by assumed external
+        contracts to say that a result is a (deterministic) function of the arguments, and by specifications to name
+        that value"""
+        name, d, *xs = args
+        if not isinstance(name, str):
+            raise Unsupported('uf() needs a literal name')
+        ty = self.type_designator(d)
+        terms = [self.lift(x) for x in xs]
+        f = z3.Function('uf_' + name, *([t.sort() for t in terms] + [sort_of(ty)]))
+        t = f(*terms)
+        if is_ref_type(ty):
+            self.run.assume(self.ref_valid_term(t, ty, self.heap), silent=True)
+        v = self.wrap(t, ty)
+        if isinstance(v, SV):
+            self.assume_domain(v)
+        return v
+
+    def bi_same(self, args, kw, line):
+        """same(a, b): a and b are the same scalar value (for fp64: bitwise the same datum, so same(nan, nan) holds while
+        nan == nan does not) or the same object (containers, instances)"""
+        a, b = args
+        if self.is_fp(a) or self.is_fp(b):
+            ta, tb = self.fp_terms(a, b)
+            return self.bool_value(ta == tb)
+        if isinstance(a, HeapVal) and isinstance(b, HeapVal):
+            return self.bool_value(a.ref == b.ref)      # the same object
+        if isinstance(a, tuple) and isinstance(b, tuple) and len(a) == len(b):
+            return self.bool_value(self.conj([self.as_bool(self.truthy(self.bi_same([x, y], {}, line))) for x, y in zip(a, b)]))
+        return self.bool_value(self.eq(a, b))
+
+    def bi_old_heap(self, args, kw, line):
+        """old_heap(v): the heap value v viewed in the pre-state of the function under proof"""
+        return self.pin(args[0], self.old_heap)
